@@ -175,7 +175,7 @@ Proof.
 Qed.
 
 (* ------------------------------------------------------------------ required policy, end to end *)
-Lemma avail_of_topo o st : incl (avail_of o st) (map cid (o_topo o)).
+Lemma avail_of_topo o st rq : incl (avail_of o st rq) (map cid (o_topo o)).
 Proof.
   unfold avail_of, available. cbn [fst]. intros x Hx. apply filter_In in Hx. tauto.
 Qed.
@@ -191,7 +191,7 @@ Proof.
   intros HT H Hreq.
   destruct (allocate_cpuset_spec o st rq numa s HT H) as [S1 [S2 [_ S5]]].
   specialize (S5 Hreq).
-  assert (Hinc : incl s (map cid (o_topo o))) by (intros x Hx; apply (avail_of_topo o st); apply S2; exact Hx).
+  assert (Hinc : incl s (map cid (o_topo o))) by (intros x Hx; apply (avail_of_topo o st rq); apply S2; exact Hx).
   unfold satisfied_policy in S5. split.
   - intros Hb Hu. rewrite Hb in S5. cbn in S5. apply full_sound; assumption.
   - intros Hb. rewrite Hb in S5. cbn in S5. apply spread_sound; assumption.
